@@ -37,7 +37,7 @@ def make_case(seed, tier):
         knobs = gen.Knobs(items=r.choice([3, 5]), members=r.choice([4, 8]), ns_depth=r.choice([1, 2, deep]), inst_len=3)
         mod = gen.WildGen(seed, knobs, multiline_defaults=False, typedefs=True, typedef_same_ns=True, param_use=0.3, this_use=0.05,
                           class_template_p=0.3, operators=False, dunders=False, includes=True, special_names=0.05,
-                          class_enums=True, enum_namesakes=0.3).module()
+                          class_enums=True, enum_namesakes=0.3, ns_namesakes=0.25).module()
         kind = 'wild'
     cls = []
     for path, it in S.walk_items(mod.items):
@@ -179,11 +179,13 @@ def run_case(seed, tier, acc):
     try:
         vs = check(mod, opts, acc, text)
     except Exception as e:
-        if opts['kind'] == 'coherent':
-            vs = [{'what': 'MATLAB generation failed on a coherent model', 'error': '%s: %s' % (type(e).__name__, str(e)[:200])}]
-        else:
-            acc.count('wild_generation_failed(decided elsewhere)')
+        if isinstance(e, OSError) and getattr(e, 'errno', None) == 36:
+            acc.count('file_name_too_long(operating system limit)')       # deep instantiation names
             vs = []
+        else:
+            # the generator resolves no names: every well-formed module must yield a toolbox (D52, repaired)
+            vs = [{'what': 'MATLAB generation failed on a well-formed module (%s)' % opts['kind'],
+                   'error': '%s: %s' % (type(e).__name__, str(e)[:200])}]
     for v in vs:
         v['text'] = text[:2500]
         v['options'] = opts
